@@ -1783,6 +1783,14 @@ def _task(key, prefix, opts, budget):
     return out, stack, sorted(_seen_code)
 
 
+_PEAK_SLACK = [1.0]
+
+
+def peak_slack():
+    _PEAK_SLACK[0] = max(_PEAK_SLACK[0], slack())
+    return _PEAK_SLACK[0]
+
+
 def explore(fn, opts=None, workers=None, max_paths=200000, deadline_s=None, progress=None):
     """Explore all feasible paths of fn(); obligations are proved inside fn via E().prove."""
     opts = dict(opts or {})
@@ -1800,7 +1808,7 @@ def explore(fn, opts=None, workers=None, max_paths=200000, deadline_s=None, prog
             res.merge_path(p)
             if progress is not None:
                 progress(res)
-            if res.paths > max_paths or (deadline_s and time.time() - t0 > deadline_s * slack()):
+            if res.paths > max_paths or (deadline_s and time.time() - t0 > deadline_s * peak_slack()):
                 res.bound_hits.append(f"path/time budget hit after {res.paths} paths")
                 break
         res.functions.update(_seen_code)
@@ -1827,7 +1835,7 @@ def explore(fn, opts=None, workers=None, max_paths=200000, deadline_s=None, prog
                 else:
                     nxt.append(h)
             pending = nxt
-            if res.paths > max_paths or (deadline_s and time.time() - t0 > deadline_s * slack()):
+            if res.paths > max_paths or (deadline_s and time.time() - t0 > deadline_s * peak_slack()):
                 if not stop:
                     res.bound_hits.append(f"path/time budget hit after {res.paths} paths")
                 stop = True
